@@ -16,6 +16,7 @@
 #include "parsec/class/parsec_object.h"
 #include "parsec/class/list.h"
 #include "parsec/class/parsec_future.h"
+#include "parsec/utils/debug.h"
 #include <stdio.h>
 #include <stdlib.h>
 #include <string.h>
@@ -43,7 +44,8 @@ static parsec_base_future_t *fut_of[MAXS + 1];   /* datacopy futures by tracked 
 static volatile int fulfilled[MAXS + 1], completed[MAXS + 1];
 static int n_fulfil[MAXS + 1], n_setup[MAXS + 1], n_cb;
 
-static void die(const char *m) { fprintf(stderr, "fut_replay: %s\n", m); exit(3); }
+static int err_fd = 2;
+static void die(const char *m) { dprintf(err_fd, "fut_replay: %s\n", m); exit(3); }
 
 static void parse_scenario(const char *path)
 {
@@ -96,7 +98,7 @@ static void cb_fulfill(parsec_base_future_t *f, ...)           /* fulfilment cal
 {
     int s = shape_of(f);
     __sync_fetch_and_add(&n_fulfil[s], 1);
-    vt_ev("\"e\":\"fulfil\",\"t\":%d,\"s\":%d", cur_tid, s);
+    vt_ev("\"e\":\"fulfil\",\"t\":%d,\"sh\":%d", cur_tid, s);
     fulfilled[s] = 1;
     if( sync_mode ) { completed[s] = 1; parsec_future_set(f, &vals[s]); }
 }
@@ -110,7 +112,7 @@ static int cb_match(parsec_base_future_t *f, ...)
 
 static void cb_cleanup(parsec_base_future_t *f, ...)
 {
-    vt_ev("\"e\":\"cleanup\",\"s\":%d", shape_of(f));
+    vt_ev("\"e\":\"cleanup\",\"sh\":%d", shape_of(f));
 }
 
 static void cb_nested(parsec_base_future_t **out, ...)
@@ -121,7 +123,7 @@ static void cb_nested(parsec_base_future_t **out, ...)
     (void)root;
     s = *request;
     __sync_fetch_and_add(&n_setup[s], 1);
-    vt_ev("\"e\":\"setup\",\"t\":%d,\"s\":%d", cur_tid, s);
+    vt_ev("\"e\":\"setup\",\"t\":%d,\"sh\":%d", cur_tid, s);
     nf = PARSEC_OBJ_NEW(parsec_datacopy_future_t);
     parsec_future_init(nf, cb_fulfill, &spec[s], cb_match, &spec[s], cb_cleanup);
     fut_of[s] = (parsec_base_future_t*)nf;
@@ -170,7 +172,7 @@ static void do_op(int tid, op_t *o, int *res)
         break;
     case OP_GOT: {
         int req = o->v;
-        vt_ev("\"e\":\"inv\",\"t\":%d,\"op\":\"got\",\"s\":%d", tid + 1, o->v);
+        vt_ev("\"e\":\"inv\",\"t\":%d,\"op\":\"got\",\"sh\":%d", tid + 1, o->v);
         p = parsec_future_get_or_trigger(fut, cb_nested, (0 == req ? NULL : (void*)&req), NULL, NULL);
         r = NULL == p ? 0 : *(int*)p;
         vt_ev("\"e\":\"res\",\"t\":%d,\"op\":\"got\",\"r\":%d", tid + 1, r);
@@ -179,7 +181,7 @@ static void do_op(int tid, op_t *o, int *res)
         /* asynchronous completion: somebody (think: the communication thread) delivers the data of a future whose
          * fulfilment was triggered earlier; exactly one caller may do it */
         int s = o->v;
-        vt_ev("\"e\":\"inv\",\"t\":%d,\"op\":\"complete\",\"s\":%d", tid + 1, s);
+        vt_ev("\"e\":\"inv\",\"t\":%d,\"op\":\"complete\",\"sh\":%d", tid + 1, s);
         if( NULL != fut_of[s] && fulfilled[s] && __sync_bool_compare_and_swap(&completed[s], 0, 1) ) {
             parsec_future_set(fut_of[s], &vals[s]);
             r = 1;
@@ -258,6 +260,11 @@ int main(int argc, char **argv)
     vt_init(1 << 14);
     if( vt_open(argv[4]) ) die("cannot open trace output");
     meta = fopen(argv[5], "w");
+    /* the futures report ignored sets with parsec_warning(): keep the (expected) messages off stderr, and let the
+     * output layer do its lazy initialisation before any controlled run */
+    err_fd = dup(2);
+    if( NULL == freopen("/dev/null", "w", stderr) ) die("cannot silence stderr");
+    parsec_warning("fut_replay: warm-up");
     {   /* class initialisation takes a lock the first time an object of a class is created: do it now */
         parsec_list_t *l = PARSEC_OBJ_NEW(parsec_list_t);
         parsec_datacopy_future_t *d = PARSEC_OBJ_NEW(parsec_datacopy_future_t);
